@@ -36,6 +36,8 @@ def leaf_setup(E):
 
 
 def leaf_cases(E, ctx):
+    if _adt(E, ctx):
+        return leaf_cases_adt(E, ctx)
     v = ctx.value
     ok = z3.And(is_bytes(v), z3.Length(pb(v)) > 0)
     return [Case("not-bytes", when=mk_bool(z3.Not(is_bytes(v))), raises=vt(E)),
@@ -54,6 +56,8 @@ def h32(v):
 
 
 def branch_cases(E, ctx):
+    if _adt(E, ctx):
+        return branch_cases_adt(E, ctx)
     l, r = ctx.left_child_node_hash, ctx.right_child_node_hash
     ok = z3.And(h32(l), h32(r))
     return [Case("refused", when=mk_bool(z3.Not(ok)), raises=vt(E)),
@@ -79,6 +83,8 @@ def kv_requires(E, ctx):
 
 
 def kv_cases(E, ctx):
+    if _adt(E, ctx):
+        return kv_cases_adt(E, ctx)
     kp, ch = ctx.keypath, ctx.child_node_hash
     ok = z3.And(is_bytes(kp), z3.Length(pb(kp)) > 0, h32(ch))
 
@@ -96,6 +102,8 @@ def parse_setup(E):
 
 
 def parse_cases(E, ctx):
+    if _adt(E, ctx):
+        return parse_cases_adt(E, ctx)
     n = ctx.node
     t = pv(n)
     b = pb(n)
@@ -125,6 +133,125 @@ def parse_cases(E, ctx):
 def parse_requires(E, ctx):
     # callers pass byte strings or None
     return [("bytes-or-none", mk_bool(z3.Or(PyVal.is_PNone(pv(ctx.node)), PyVal.is_PBytes(pv(ctx.node)))))]
+
+
+# ---------------------------------------------------------------------------------------------------
+# datatype view of the same four functions (used by the trie-level units; see contracts/binmodel.py)
+
+def _adt(E, ctx):
+    return bool(E.ghost.get("adt_nodes")) and not hasattr(ctx, "outcome")
+
+
+def _bytes_term(v):
+    return ops.seq_term_as(v, "int")
+
+
+def leaf_cases_adt(E, ctx):
+    from contracts import binmodel as BM
+    v = _bytes_term(ctx.value)
+
+    def ret():
+        e = z3.Const(E.fresh_name("enc_leaf"), SeqI)
+        E.assume(mk_bool(z3.And(BM.dec(e) == BM.BNode.BLeaf(v), z3.Length(e) >= 2)))
+        E.ghost.setdefault("encoded", {})[e.get_id()] = ("leaf", v)
+        return SSeq(e, "bytes", "int")
+    return [Case("empty", when=mk_bool(z3.Length(v) == 0), raises=vt(E)),
+            Case("encoded", when=mk_bool(z3.Length(v) > 0), returns=ret)]
+
+
+def branch_cases_adt(E, ctx):
+    from contracts import binmodel as BM
+    l, r = _bytes_term(ctx.left_child_node_hash), _bytes_term(ctx.right_child_node_hash)
+    ok = z3.And(z3.Length(l) == 32, z3.Length(r) == 32)
+
+    def ret():
+        e = z3.Const(E.fresh_name("enc_branch"), SeqI)
+        E.assume(mk_bool(z3.And(BM.dec(e) == BM.BNode.BBranch(l, r), z3.Length(e) == 65)))
+        E.ghost.setdefault("encoded", {})[e.get_id()] = ("branch", l, r)
+        return SSeq(e, "bytes", "int")
+    return [Case("refused", when=mk_bool(z3.Not(ok)), raises=vt(E)),
+            Case("encoded", when=mk_bool(ok), returns=ret)]
+
+
+def kv_cases_adt(E, ctx):
+    from contracts import binmodel as BM
+    p, c = _bytes_term(ctx.keypath), _bytes_term(ctx.child_node_hash)
+    ok = z3.And(z3.Length(p) > 0, z3.Length(c) == 32)
+
+    def ret():
+        e = z3.Const(E.fresh_name("enc_kv"), SeqI)
+        E.assume(mk_bool(z3.And(BM.dec(e) == BM.BNode.BKV(p, c), z3.Length(e) >= 34)))
+        E.ghost.setdefault("encoded", {})[e.get_id()] = ("kv", p, c)
+        return SSeq(e, "bytes", "int")
+    return [Case("refused", when=mk_bool(z3.Not(ok)), raises=vt(E)),
+            Case("encoded", when=mk_bool(ok), returns=ret)]
+
+
+def parse_cases_adt(E, ctx):
+    from contracts import binmodel as BM
+    if ctx.node is None:
+        return [Case("blank", raises=inv_node(E))]
+    n = _bytes_term(ctx.node)
+    D = BM.dec(n)
+    N = BM.BNode
+    return [Case("branch", when=mk_bool(N.is_BBranch(D)),
+                 returns=lambda: (1, SSeq(N.bleft(D), "bytes"), SSeq(N.bright(D), "bytes"))),
+            Case("kv", when=mk_bool(N.is_BKV(D)),
+                 returns=lambda: (0, SSeq(N.bpath(D), "bytes", "int", rng=(0, 1)), SSeq(N.bchild(D), "bytes"))),
+            Case("leaf", when=mk_bool(N.is_BLeaf(D)), returns=lambda: (2, None, SSeq(N.bval(D), "bytes"))),
+            Case("not-a-node", when=mk_bool(N.is_BBad(D)), raises=Exception)]
+
+
+def lemma_dec_of_encodings(E):
+    """dec(encode_x_node(args)) = X(args): from the definition of dec and the byte-level contracts of the encoders"""
+    from contracts import binmodel as BM
+    enc_kv = find_function(E.loader, MOD + ":encode_kv_node")
+    enc_br = find_function(E.loader, MOD + ":encode_branch_node")
+    enc_lf = find_function(E.loader, MOD + ":encode_leaf_node")
+    which = E.nondet(3)
+    N = BM.BNode
+    if which == 0:
+        p = E.fresh_seq("p", "bytes")
+        p.rng = (0, 1)
+        E.assume(mk_bool(z3.And(allbit(p.t), z3.Length(p.t) > 0)))
+        h = objs.hash32(E, "h")
+        e = E.call(enc_kv, [p, h]).t
+        E.assume(mk_bool(BM.dec(e) == BM.dec_definition(e)))        # reveal the definition at e
+        E.prove("dec_of_encodings/kv", mk_bool(BM.dec(e) == N.BKV(p.t, h.t)), kind="lemma")
+    elif which == 1:
+        l, r = objs.hash32(E, "l"), objs.hash32(E, "r")
+        e = E.call(enc_br, [l, r]).t
+        E.assume(mk_bool(BM.dec(e) == BM.dec_definition(e)))
+        E.prove("dec_of_encodings/branch", mk_bool(BM.dec(e) == N.BBranch(l.t, r.t)), kind="lemma")
+    else:
+        v = E.fresh_seq("v", "bytes")
+        E.assume(mk_bool(z3.Length(v.t) > 0))
+        e = E.call(enc_lf, [v]).t
+        E.assume(mk_bool(BM.dec(e) == BM.dec_definition(e)))
+        E.prove("dec_of_encodings/leaf", mk_bool(BM.dec(e) == N.BLeaf(v.t)), kind="lemma")
+
+
+def lemma_parse_is_dec(E):
+    """parse_node(n) returns the components of dec(n) (and raises exactly when dec(n) is BBad): the byte-level
+    contract of parse_node against the definition of dec"""
+    from contracts import binmodel as BM
+    parse = find_function(E.loader, MOD + ":parse_node")
+    n = E.fresh_seq("n", "bytes")
+    E.assume(mk_bool(BM.dec(n.t) == BM.dec_definition(n.t)))
+    N = BM.BNode
+    D = BM.dec(n.t)
+    try:
+        got = E.call(parse, [n])
+    except PyRaise:
+        E.prove("parse_is_dec/raises-only-on-bad", mk_bool(N.is_BBad(D)), kind="lemma")
+        return
+    ty, a, b = got
+    if ty == 1:
+        E.prove("parse_is_dec/branch", mk_bool(D == N.BBranch(a.t, b.t)), kind="lemma")
+    elif ty == 0:
+        E.prove("parse_is_dec/kv", mk_bool(D == N.BKV(a.t, b.t)), kind="lemma")
+    else:
+        E.prove("parse_is_dec/leaf", mk_bool(z3.And(D == N.BLeaf(b.t), a is None)), kind="lemma")
 
 
 def lemma_bin_node_roundtrip(E):
@@ -170,3 +297,5 @@ def register(reg):
     reg.add(g, Contract(MOD + ":parse_node", ["node"], parse_cases, setup=parse_setup, requires=parse_requires,
                         props=("C16", "C12", "C13")))
     reg.add_lemma(g, Lemma("lemma:bin_node_roundtrip", ("C16", "C12"), lemma_bin_node_roundtrip))
+    reg.add_lemma(g, Lemma("lemma:dec_of_encodings", ("C12", "C13"), lemma_dec_of_encodings))
+    reg.add_lemma(g, Lemma("lemma:parse_is_dec", ("C12", "C13"), lemma_parse_is_dec))
